@@ -235,6 +235,11 @@ func (a *Allocator) Destroy() error {
 	}
 
 	for memoryTypeIndex := 0; memoryTypeIndex < a.deviceMemory.MemoryTypeCount(); memoryTypeIndex++ {
+		if a.memoryBlockLists[memoryTypeIndex] == nil {
+			// Memory types excluded by globalMemoryTypeBits never got a block list
+			continue
+		}
+
 		err := a.memoryBlockLists[memoryTypeIndex].Destroy()
 		if err != nil {
 			errs = append(errs, err)
